@@ -50,7 +50,14 @@ def main():
             continue
         try:
             new = src.replace(m["old"], m["new"])
-            for o, n in m.get("edits", ()):
+            for ed in m.get("edits", ()):
+                o, n = ed[0], ed[1]
+                if len(ed) == 3:           # edit in another file
+                    p2 = os.path.join(REPO, ed[2])
+                    s2 = open(p2).read()
+                    assert s2.count(o) == 1, o
+                    open(p2, "w").write(s2.replace(o, n))
+                    continue
                 assert new.count(o) == 1, o
                 new = new.replace(o, n)
             open(path, "w").write(new)
@@ -62,7 +69,7 @@ def main():
                 if rc == 2:
                     det[pid]["tail"] = out[-400:]
         finally:
-            sh("git -C %s checkout -- %s" % (REPO, m["file"]))
+            sh("git -C %s checkout -- ." % (REPO,))
         hit = [p for p, d in det.items() if d["exit"] == 1]
         broken = [p for p, d in det.items() if d["exit"] not in (0, 1)]
         r = "detected" if hit else ("BUILD-BROKEN" if broken else "MISSED")
